@@ -448,8 +448,8 @@ fn gen_store(r: &mut Rng) -> Vec<Resource> {
             2 => ResourceType::Mime(MimeType::ImageGif),
             3 => ResourceType::Mime(MimeType::TextCss),
             4 => ResourceType::Mime(MimeType::Unknown),
-            5 => match r.below(5) {
-                0 => ResourceType::Mime(MimeType::ApplicationJson),
+            5 => match r.below(6) {
+                0 | 5 => ResourceType::Mime(MimeType::ApplicationJson),
                 1 => ResourceType::Mime(MimeType::TextPlain),
                 2 => ResourceType::Mime(MimeType::TextHtml),
                 3 => ResourceType::Mime(MimeType::TextXml),
@@ -463,7 +463,8 @@ fn gen_store(r: &mut Rng) -> Vec<Resource> {
         if r.pct(10) {
             res.dependencies = vec!["fn.js".to_string()];
         }
-        if r.pct(15) {
+        let textual_not_js = matches!(res.kind, ResourceType::Mime(MimeType::ApplicationJson) | ResourceType::Mime(MimeType::TextPlain) | ResourceType::Mime(MimeType::TextHtml) | ResourceType::Mime(MimeType::TextXml));
+        if r.pct(if textual_not_js { 45 } else { 12 }) {
             // content that is base64 of bytes which are not text: fine for an image, refused for every textual kind
             use base64::{engine::Engine as _, prelude::BASE64_STANDARD};
             let raw: Vec<u8> = match r.below(3) {
